@@ -28,6 +28,15 @@ Theorem source_constructor_validates : forall o,
 Proof. exact src_constructor_validates. Qed.
 Print Assumptions source_constructor_validates.
 
+Theorem source_constructor_accepts_iff : forall o, o_kind o = KObj ->
+  (ctor_check src_cfg o = None <->
+   (forall m, In m (omr_list o) -> is_marking m = true) /\
+   (forall g, In g (gms_list o) ->
+      g_sels g <> [] /\ (o_v21 o = true \/ nonempty (g_lang g) = false) /\
+      forall s, In s (g_sels g) -> selector_syntax_ok src_cfg s = true /\ addresses_something (view o) s)).
+Proof. exact src_constructor_accepts_iff. Qed.
+Print Assumptions source_constructor_accepts_iff.
+
 Theorem source_selector_syntax : forall s,
   selector_syntax_ok src_cfg s = true <->
   if dollar_of src_cfg then selector_text true s else selector_grammar true s.
